@@ -16,24 +16,39 @@ fn off(ptr: &parser::syntax::MySyntaxNodePtr) -> u32 {
 
 pub const PARAM_BASE: u32 = 10_000_000;
 
-fn pat_sexp(p: &ast::Pat) -> S {
+/// constructors of ONE file by its own declarations (harness/src/patrule.rs)
+type Ctors = std::collections::BTreeSet<String>;
+
+/// Which occurrences in a pattern are BINDERS is the language's rule, not lowering's word: a bare
+/// identifier that is a variant of an enum / the name of a struct declared in the same file is a
+/// constructor pattern whatever is in scope (a pattern never refers to a local), every other bare
+/// identifier and every struct-pattern shorthand field is a binder (patrule.rs, DESIGN.md 9.2).
+fn pat_sexp(p: &ast::Pat, ctors: &Ctors) -> S {
+    if let Some((name, rule, _)) = crate::patrule::by_rule(p, ctors) {
+        return match (rule, p) {
+            (crate::patrule::Class::Binder, ast::Pat::PVar { astptr, .. } | ast::Pat::PConstr { astptr, .. }) => {
+                tagged("pv", vec![a(&name), n(off(astptr))])
+            }
+            _ => tagged("po", vec![]),
+        };
+    }
     match p {
         ast::Pat::PVar { name, astptr } => tagged("pv", vec![a(&name.0), n(off(astptr))]),
-        ast::Pat::PConstr { args, .. } => tagged("po", args.iter().map(pat_sexp).collect()),
+        ast::Pat::PConstr { args, .. } => tagged("po", args.iter().map(|p| pat_sexp(p, ctors)).collect()),
         ast::Pat::PStruct { fields, .. } => {
-            tagged("po", fields.iter().map(|(_, p)| pat_sexp(p)).collect())
+            tagged("po", fields.iter().map(|(_, p)| pat_sexp(p, ctors)).collect())
         }
-        ast::Pat::PTuple { pats, .. } => tagged("po", pats.iter().map(pat_sexp).collect()),
+        ast::Pat::PTuple { pats, .. } => tagged("po", pats.iter().map(|p| pat_sexp(p, ctors)).collect()),
         _ => tagged("po", vec![]),
     }
 }
 
 /// children in the order `resolve_expr` visits them; `outside` counts shapes the model
 /// does not cover (a `let` that is not a direct block item)
-fn expr_sexp(e: &ast::Expr, outside: &mut usize) -> S {
+fn expr_sexp(e: &ast::Expr, outside: &mut usize, ctors: &Ctors) -> S {
     use ast::Expr::*;
     let mut node = |es: Vec<&ast::Expr>, outside: &mut usize| {
-        tagged("n", es.into_iter().map(|e| expr_sexp(e, outside)).collect())
+        tagged("n", es.into_iter().map(|e| expr_sexp(e, outside, ctors)).collect())
     };
     match e {
         EPath { path, astptr } => {
@@ -50,7 +65,7 @@ fn expr_sexp(e: &ast::Expr, outside: &mut usize) -> S {
             if constructor.len() == 1 {
                 // a bare name that AST lowering classified as a constructor
                 let mut v = vec![a(&constructor.segments[0].ident.0), n(off(astptr))];
-                v.extend(args.iter().map(|e| expr_sexp(e, outside)));
+                v.extend(args.iter().map(|e| expr_sexp(e, outside, ctors)));
                 tagged("k", v)
             } else {
                 node(args.iter().collect(), outside)
@@ -60,19 +75,19 @@ fn expr_sexp(e: &ast::Expr, outside: &mut usize) -> S {
         ETuple { items, .. } | EArray { items, .. } => node(items.iter().collect(), outside),
         ELet { pat, value, .. } => {
             *outside += 1;
-            tagged("b", vec![tagged("let", vec![pat_sexp(pat), expr_sexp(value, outside)])])
+            tagged("b", vec![tagged("let", vec![pat_sexp(pat, ctors), expr_sexp(value, outside, ctors)])])
         }
         EClosure { params, body, .. } => tagged(
             "c",
             vec![
                 l(params.iter().map(|p| l(vec![a(&p.name.0), n(off(&p.astptr))])).collect()),
-                expr_sexp(body, outside),
+                expr_sexp(body, outside, ctors),
             ],
         ),
         EMatch { expr, arms, .. } => {
-            let mut v = vec![expr_sexp(expr, outside)];
+            let mut v = vec![expr_sexp(expr, outside, ctors)];
             for arm in arms {
-                v.push(tagged("arm", vec![pat_sexp(&arm.pat), expr_sexp(&arm.body, outside)]));
+                v.push(tagged("arm", vec![pat_sexp(&arm.pat, ctors), expr_sexp(&arm.body, outside, ctors)]));
             }
             tagged("m", v)
         }
@@ -95,9 +110,9 @@ fn expr_sexp(e: &ast::Expr, outside: &mut usize) -> S {
             for e in exprs {
                 match e {
                     ELet { pat, value, .. } => {
-                        v.push(tagged("let", vec![pat_sexp(pat), expr_sexp(value, outside)]))
+                        v.push(tagged("let", vec![pat_sexp(pat, ctors), expr_sexp(value, outside, ctors)]))
                     }
-                    other => v.push(expr_sexp(other, outside)),
+                    other => v.push(expr_sexp(other, outside, ctors)),
                 }
             }
             tagged("b", v)
@@ -133,6 +148,8 @@ pub struct ScopeDump {
     pub binders: usize,
     /// bare names that lowering classified as constructors
     pub con_nodes: usize,
+    /// bare-identifier patterns that lowering classified against the rule of patrule.rs: `name@offset:kind`
+    pub patclass: Vec<String>,
 }
 
 fn collect_use_tags(s: &S, out: &mut Vec<(u32, String)>, binders: &mut usize, cons: &mut usize) {
@@ -255,8 +272,11 @@ pub fn scope_dump(files: &[&ast::File]) -> ScopeDump {
     let (ctors, defs) = declared_globals(files);
     let mut out_files = Vec::new();
     let mut fi = 0u32;
+    let mut patclass = Vec::new();
     for (file, ctors) in files.iter().zip(ctors) {
         let mut fns = Vec::new();
+        let file_ctors = crate::patrule::file_ctors(file);
+        patclass.extend(crate::patrule::mismatches(file).into_iter().map(|m| format!("{}@{}:{}", m.name, m.offset, m.kind)));
         for f in ast_fns(file) {
             let params = f
                 .params
@@ -265,7 +285,7 @@ pub fn scope_dump(files: &[&ast::File]) -> ScopeDump {
                 .map(|(k, (id, _))| l(vec![a(&id.0), n(PARAM_BASE + fi * 1000 + k as u32)]))
                 .collect();
             fi += 1;
-            let cand = tagged("fn", vec![l(params), expr_sexp(&f.body, &mut outside)]);
+            let cand = tagged("fn", vec![l(params), expr_sexp(&f.body, &mut outside, &file_ctors)]);
             // derive-generated methods reuse the attribute's syntax pointer for every node: their
             // occurrences cannot be told apart by offset, so they are left out of the comparison
             let mut tags = Vec::new();
@@ -288,7 +308,7 @@ pub fn scope_dump(files: &[&ast::File]) -> ScopeDump {
     for f in out_files.iter().flat_map(|f| f.fns.iter()) {
         collect_use_tags(f, &mut use_tags, &mut binders, &mut con_nodes);
     }
-    ScopeDump { files: out_files, defs, use_tags, outside, binders, con_nodes }
+    ScopeDump { files: out_files, defs, use_tags, outside, binders, con_nodes, patclass }
 }
 
 pub struct Real {
@@ -846,7 +866,7 @@ fn run_case(id: &str, files: &[(String, String)], dir: &Path, real_path: Option<
     };
     writeln!(
         out,
-        "{}\tCASE\t{}\t{}\t{}\tuses={} binders={} outside={} cons={} shared={} {}\t{}",
+        "{}\tCASE\t{}\t{}\t{}\tuses={} binders={} outside={} cons={} shared={} patclass={} {}\t{}",
         id,
         sexp.to_text(),
         real,
@@ -856,6 +876,7 @@ fn run_case(id: &str, files: &[(String, String)], dir: &Path, real_path: Option<
         dump.outside,
         dump.con_nodes,
         if shared.is_empty() { "-" } else { &shared },
+        if dump.patclass.is_empty() { "-".to_string() } else { dump.patclass.join(",") },
         extra,
         esc_line(&joined)
     )
@@ -900,6 +921,11 @@ pub fn main(args: &util::Args) {
     // by construction when every use means its innermost binder
     for case in crate::namecat::catalogue(args.seed, args.tier == "thorough") {
         run_case(&case.id, &case.files, &dir, None, &mut out, &format!("stream=names strays=0 globals_clash=false site={:?}File dups=false", case.site));
+    }
+    // constructor names in PATTERN position under a local binder of the same spelling (harness/src/patpos.rs):
+    // the pattern tests the constructor, a use in the arm body means the local; well-typed by construction
+    for case in crate::patpos::catalogue() {
+        run_case(&case.id, &[("main.gom".to_string(), case.src.clone())], &dir, None, &mut out, "stream=patpos strays=0 globals_clash=false site=SameFile dups=false");
     }
     let total = args.n.unwrap_or(if args.tier == "thorough" { 9000 } else { 900 });
     let mut feats_total: HashMap<&'static str, usize> = HashMap::new();
